@@ -77,14 +77,28 @@ def gen(rng, tier, quarantine=()):
         if "param" in forms[focus]:
             ctx = [c for c in ctx if "param" not in forms[c]]
         sel = simple_sel(qual, focus=focus, caps=ctx)
-        ops.append({"op": "mk", "id": f"p{i}", "sels": [sel], "style": rng.randrange(2),
+        if i and rng.random() < 0.2:
+            # the very same selector text as the previous probe (compiled selectors are shared)
+            import copy
+
+            sel = copy.deepcopy(ops[-2]["sels"][0])
+            focus = sel["focus"]["var"]
+        ops.append({"op": "mk", "id": f"p{i}", "sels": [sel], "style": ops[-2]["style"] if i and sel == ops[-2]["sels"][0] else rng.randrange(2),
                     "inv": "C02.stream",
                     # raw captures are read after the operation: not for values mutated in place meanwhile
                     "raw": rng.random() < 0.3 and focus not in fnir.get("mutable", ())})
         ops.append({"op": "enter", "id": f"p{i}"})
     tl = 24 if tier == "quick" else 48
     short = qual.split(".")[-1]
-    for c in range(rng.randint(1, 3)):
+    failing = False
+    if "no-failing-subscriber" not in quarantine and rng.random() < 0.1 \
+            and not (short in GEN_FNS or (generated and is_gen)):
+        # a subscriber of one probe fails on its k-th event: that call is cut short by it; the
+        # calls after it are reported exactly as before (to every probe)
+        failing = True
+        ops.append({"op": "stage", "id": f"p{rng.randrange(nprobes)}", "kind": "whole", "cap": None,
+                    "raises": rng.randint(1, 6)})
+    for c in range(rng.randint(1, 3) + (2 if failing else 0)):
         nf = rng.choice([0, 0, 1, 1, 2])
         if (short in GEN_FNS or (generated and is_gen)) and rng.random() < 0.6:
             g = f"g{c}"
@@ -100,10 +114,12 @@ def gen(rng, tier, quarantine=()):
             op["faults"] = gen_faults(rng, 30, nf)
             ops.append(op)
     if rng.random() < 0.3:
-        ops.append({"op": "exit", "id": f"p{nprobes - 1}"})
+        # probes end in any order (the older one may go first)
+        gone = rng.randrange(nprobes)
+        ops.append({"op": "exit", "id": f"p{gone}"})
         if rng.random() < 0.5:
             # deactivating the finished probe once more must not disturb the one still active
-            ops.append({"op": "exit", "id": f"p{nprobes - 1}", "again": True})
+            ops.append({"op": "exit", "id": f"p{gone}", "again": True})
         op = call_shape(rng, qual, fnir, "k1")
         op["tape"] = gen_tape(rng, 8)
         ops.append(op)
